@@ -1810,6 +1810,7 @@ func cmdC18(seed int64, tier, outDir string) {
 		id++
 		c18HTMLCase(&htmlCase{Tree: xfmt(st, xlink("u", xl(xl(file, xs("x")), xl(xi(1), xl(xs("in")))))), MaxList: 3, Inline: true}, id, sum, cw)
 	}
+	c18Sweep(tier, &id, sum, cw)
 	cw.Flush()
 	sum.CaseFiles = cw.files
 	sort.SliceStable(sum.GoViolations, func(i, j int) bool {
